@@ -161,3 +161,26 @@ A(M("w3r4-write-pdb-fills-input", ["C09"], P2, "    for _, row in df.iterrows():
 A(M("w3r4-write-cif-tags-input", ["C09"], P2, "    format_type = df.attrs.get(\"format\", \"PDB\")\n\n    # Create a new DataContainer", "    format_type = df.attrs.get(\"format\", \"PDB\")\n    df.attrs[\"format\"] = \"mmCIF\"\n\n    # Create a new DataContainer", "argument-untouched"))
 A(M("w3r4-write-pdb-fills-copy-silent", ["C09"], P2, "    for _, row in df.iterrows():\n        atom_data = {}\n", "    table = df.copy()\n    for _, row in table.iterrows():\n        atom_data = {}\n", kind="silent"))
 A(M("w3r4-fit-chain-order-sorted-silent", ["C10"], P2, "    unique_chains = df[chain_col].unique()\n", "    unique_chains = sorted(df[chain_col].unique())\n", kind="silent"))
+
+# ---- parser_v2 readers interpreted as whole functions (documents, atom_site categories)
+A(M("w3r4-v2-stop-at-end-prefix", ["C15", "C09"], P2, '        # Only process ATOM and HETATM records\n        if record_type not in ["ATOM", "HETATM"]:\n            continue', '        if record_type.startswith("END"):\n            break\n\n        # Only process ATOM and HETATM records\n        if record_type not in ["ATOM", "HETATM"]:\n            continue', "pdb-record-filter"))
+A(M("w3r4-v2-skip-waters", ["C15"], P2, '        # Parse fields according to PDB format specification\n        alt_loc = line[16:17].strip()', '        if record_type == "HETATM" and line[17:20].strip() == "HOH":\n            continue\n\n        # Parse fields according to PDB format specification\n        alt_loc = line[16:17].strip()', "pdb-record-filter"))
+A(M("w3r4-v2-stop-at-end-only-silent", ["C15", "C09"], P2, '        # Only process ATOM and HETATM records\n        if record_type not in ["ATOM", "HETATM"]:\n            continue', '        if record_type == "END":\n            break\n\n        # Only process ATOM and HETATM records\n        if record_type not in ["ATOM", "HETATM"]:\n            continue', kind="silent"))
+A(M("w3r4-v2-endmdl-resets-model-silent", ["C15", "C09"], P2, '        # Only process ATOM and HETATM records\n        if record_type not in ["ATOM", "HETATM"]:\n            continue', '        if record_type == "ENDMDL":\n            continue\n\n        # Only process ATOM and HETATM records\n        if record_type not in ["ATOM", "HETATM"]:\n            continue', kind="silent"))
+A(M("w3r4-v2-cif-one-null-marker", ["C15", "C09"], P2, '            if value in ["?", "."]:\n                record[attr] = None', '            if value == "?":\n                record[attr] = None', "null-markers-v2"))
+A(M("w3r4-v2-cif-null-set-silent", ["C15", "C09"], P2, '            if value in ["?", "."]:\n                record[attr] = None', '            if value in {"?", "."}:\n                record[attr] = None', kind="silent"))
+A(M("w3r4-v2-cif-skip-hetero", ["C15"], P2, "    records = []\n    for row in rows:\n        record = {}\n        for attr, value in zip(attributes, row):", "    records = []\n    for row in rows:\n        if row[0] == \"HETATM\":\n            continue\n        record = {}\n        for attr, value in zip(attributes, row):", "cif-table"))
+A(M("w3r4-v2-cif-comprehension-silent", ["C15", "C09"], P2, "        record = {}\n        for attr, value in zip(attributes, row):\n            # Store None if value indicates missing data ('?' or '.')\n            if value in [\"?\", \".\"]:\n                record[attr] = None\n            else:\n                record[attr] = value\n        records.append(record)\n", "        records.append({attr: (None if value in (\"?\", \".\") else value) for attr, value in zip(attributes, row)})\n", kind="silent"))
+
+# ---- tertiary_v2: residues decided on the partition, connectivity on residue pairs and residue lists
+T2F = "tertiary_v2.py"
+A(M("w3r4-t2-groupby-drops-missing", ["C15"], T2F, "            grouped = self.atoms.groupby(groupby_cols, dropna=False, observed=False)\n\n        elif", "            grouped = self.atoms.groupby(groupby_cols, observed=False)\n\n        elif", "group-columns"))
+A(M("w3r4-t2-groupby-file-order-silent", ["C15"], T2F, "            grouped = self.atoms.groupby(groupby_cols, dropna=False, observed=False)\n\n        elif", "            grouped = self.atoms.groupby(groupby_cols, dropna=False, observed=False, sort=False)\n\n        elif", kind="silent"))
+A(M("w3r4-t2-segments-min-three", ["C15"], T2F, "            # Add the last segment if it has at least 2 residues\n            if len(current_segment) > 1:", "            # Add the last segment if it has at least 2 residues\n            if len(current_segment) > 2:", "connect-order"))
+A(M("w3r4-t2-link-reversed", ["C15"], T2F, "                    if prev_residue.is_connected(residue):", "                    if residue.is_connected(prev_residue):", "connect-order"))
+A(M("w3r4-t2-sorted-copy-silent", ["C15"], T2F, "            residues_by_chain[chain_id].sort(\n                key=lambda r: (r.residue_number, r.insertion_code or \"\")\n            )", "            residues_by_chain[chain_id] = sorted(\n                residues_by_chain[chain_id], key=lambda r: (r.residue_number, r.insertion_code or \"\")\n            )", kind="silent"))
+A(M("w3r4-t2-link-missing-atom-true", ["C15"], T2F, "            return distance < 1.5 * AVERAGE_OXYGEN_PHOSPHORUS_DISTANCE_COVALENT\n\n        return False", "            return distance < 1.5 * AVERAGE_OXYGEN_PHOSPHORUS_DISTANCE_COVALENT\n\n        return o3p is None", "connect-atoms"))
+A(M("w3r4-t2-link-guard-clause-silent", ["C15"], T2F, "        if o3p is not None and p is not None:\n            distance = np.linalg.norm(o3p.coordinates - p.coordinates).item()\n            return distance < 1.5 * AVERAGE_OXYGEN_PHOSPHORUS_DISTANCE_COVALENT\n\n        return False", "        if o3p is None or p is None:\n            return False\n        gap = p.coordinates - o3p.coordinates\n        return np.linalg.norm(gap).item() < 1.5 * AVERAGE_OXYGEN_PHOSPHORUS_DISTANCE_COVALENT", kind="silent"))
+
+# ---- conditional emission that went one way for every representative
+A(M("w3r4-write-pdb-writes-only-occupied", ["C09"], P2, "        pdb_line = _format_pdb_atom_line(atom_data)\n        buffer.write(pdb_line + \"\\n\")\n", "        if atom_data[\"occupancy\"] > 0.0:\n            pdb_line = _format_pdb_atom_line(atom_data)\n            buffer.write(pdb_line + \"\\n\")\n", "pdb-round-trip"))
